@@ -4,6 +4,7 @@
      A ch prio name|- tmo|-  Add            P c chs|-      StartPull      L   RunLoop
      F c jid res|- err|-     Finish         K c jid,jid    Kill           T dt   Tick
      D c   Disconnect        C k  Choice    W c jid  Wait  I jid  Info    S jid v  SetInfo
+     WL c jid,jid,..  rpc_qwait with several ids (ModelWaitL.xstep; the line protocol runs the extended state machine for every op)
      X     Stats             R    restart (restore (save s)): not an op of the model's alphabet
      U dt  Advance (clock only, no handletimeouts sweep)   Y jid,jid  Drop (rpc_qdrop)   G  Watchdog (dropdead)
    jid = a<n> (auto/int id) | n<n> (client string id).
@@ -43,7 +44,7 @@ let out_s = function
       ^ list_s (fun (k, v) -> "[" ^ string_of_int k ^ "," ^ string_of_int v ^ "]") (List.sort compare (List.map (fun (k,v) -> (ni k, ni v)) busy)) ^ "]"
 
 let sorted_by f l = List.sort (fun a b -> compare (f a) (f b)) l
-let snap_s s =
+let snap_x (s, (k : conts)) =
   let jobs = sorted_by (fun j -> ni j.j_serial) s.s_jobs in
   let ids = sorted_by (fun (i, _) -> jid_s i) s.s_ids in
   let queues = sorted_by (fun (k, _) -> ni k) s.s_queues in
@@ -52,7 +53,7 @@ let snap_s s =
     let st = match c.c_st with
       | Idle -> "\"idle\",null,null"
       | BPull (chs, mb) -> "\"pull\"," ^ list_s si chs ^ "," ^ opt_s si mb
-      | BWait ser -> "\"wait\",null," ^ si ser
+      | BWait ser -> "\"wait\"," ^ list_s si (match k_get k c.c_id with Some (_, (_, all)) -> all | None -> [ser]) ^ "," ^ si ser
       | Dead -> "\"dead\",null,null" in
     "[" ^ si c.c_id ^ "," ^ st ^ "," ^ list_s (fun (i, ser) -> "[" ^ jid_s i ^ "," ^ si ser ^ "]") c.c_run ^ "]" in
   "{\"count\":" ^ si s.s_count
@@ -69,6 +70,7 @@ let snap_s s =
   ^ ",\"handed\":" ^ list_s si s.s_handed
   ^ ",\"requeued\":" ^ list_s si s.s_requeued
   ^ "}"
+let snap_s s = snap_x (s, [])
 
 let toks line = List.filter (fun x -> x <> "") (String.split_on_char ' ' line)
 let nn x = n_of_int (int_of_string x)
@@ -95,6 +97,9 @@ let parse_op t = match t with
   | ["Y"; js] -> Some (Drop (jlist js))
   | ["G"] -> Some Watchdog
   | _ -> None
+let parse_xop t = match t with
+  | ["WL"; c; js] -> Some (WaitL (nn c, jlist js))
+  | _ -> (match parse_op t with Some o -> Some (Base o) | None -> None)
 
 (* ---------------------------------------------------------------- text form of ops (for enum) *)
 let optn_t = function None -> "-" | Some n -> si n
@@ -463,15 +468,15 @@ let () =
     Bisim.run ~d1:(int_of_string argv.(2)) ~d2:(int_of_string argv.(3)) ~maxjobs:(int_of_string argv.(4))
       ~shard:(int_of_string argv.(5), int_of_string argv.(6)) ~op_t
   else begin
-    let st = ref init in
+    let st = ref xinit in
     try while true do
       let line = input_line stdin in
       match toks line with
-      | ["N"] -> st := init; print_string "{\"out\":[],\"snap\":null}\n"; flush stdout
-      | ["R"] -> st := restart !st; print_string ("{\"out\":[[\"unit\"]],\"snap\":" ^ snap_s !st ^ "}\n"); flush stdout
-      | t -> (match parse_op t with
-          | Some o -> let (s', outs) = step !st o in st := s';
-            print_string ("{\"out\":" ^ list_s out_s outs ^ ",\"snap\":" ^ snap_s s' ^ "}\n"); flush stdout
+      | ["N"] -> st := xinit; print_string "{\"out\":[],\"snap\":null}\n"; flush stdout
+      | ["R"] -> st := xrestart !st; print_string ("{\"out\":[[\"unit\"]],\"snap\":" ^ snap_x !st ^ "}\n"); flush stdout
+      | t -> (match parse_xop t with
+          | Some o -> let (s', outs) = xstep !st o in st := s';
+            print_string ("{\"out\":" ^ list_s out_s outs ^ ",\"snap\":" ^ snap_x s' ^ "}\n"); flush stdout
           | None -> print_string "{\"error\":\"parse\"}\n"; flush stdout)
     done with End_of_file -> ()
   end
